@@ -14,6 +14,7 @@ type OffsetWriteSeeker struct {
 }
 
 func NewOffsetWriter(w io.WriterAt, off int64) *OffsetWriteSeeker {
+	w = verifWrapWriterAt(w) // identity unless built with -tags verif
 	return &OffsetWriteSeeker{w, off, off}
 }
 
